@@ -10,6 +10,8 @@ import (
 	"github.com/marekgalovic/anndb/math"
 	pb "github.com/marekgalovic/anndb/protobuf"
 	uuid "github.com/satori/go.uuid"
+	"google.golang.org/grpc/codes"
+	"google.golang.org/grpc/status"
 
 	"github.com/marekgalovic/anndb/verifrt"
 )
@@ -71,6 +73,37 @@ func VerifC09() {
 			c.openFail = true
 		case 2:
 			c.answer = func(req *pb.SearchPartitionsRequest) ([]*pb.SearchResultItem, int) { return nil, 0 }
+		case 3:
+			// the stream breaks after it delivered its first item, with a gRPC status error
+			// (a node restarting: Unavailable; the connection closing: Canceled; a deadline)
+			switch verifrt.Choose("stream-error", 4) {
+			case 1:
+				c.recvErr = status.Error(codes.Unavailable, "verif: transport is closing")
+			case 2:
+				c.recvErr = status.Error(codes.Canceled, "verif: the client connection is closing")
+			case 3:
+				c.recvErr = status.Error(codes.DeadlineExceeded, "verif: deadline")
+			}
+			midstream := c
+			c.answer = func(req *pb.SearchPartitionsRequest) ([]*pb.SearchResultItem, int) {
+				var items []*pb.SearchResultItem
+				for _, pid := range req.GetPartitionIds() {
+					for j, s := range answers[string(pid)].scores {
+						items = append(items, &pb.SearchResultItem{Id: verifUUID(byte(16*int(pid[15]) + j)).Bytes(), Score: s})
+					}
+				}
+				verifrt.HarnessLock()
+				nth := len(midstream.requests)
+				verifrt.HarnessUnlock()
+				if len(items) == 0 || nth > 1 {
+					// (nothing to deliver first; or a re-opened stream: healthy)
+					if len(items) == 0 {
+						return items, 0
+					}
+					return items, -1
+				}
+				return items, 1
+			}
 		}
 		failing := c.openFail || c.answer != nil
 		if c.answer == nil {
